@@ -199,6 +199,60 @@ func TestEnumFilterOperands(t *testing.T) {
 	suite.Extra("filter_operand_matrix_exhaustive_over", fmt.Sprintf("6 comparisons x %d x %d operands x {last, followed by a child step} x {simple, gen}", len(operands), len(operands)))
 }
 
+// TestEnumFilterValues: every scalar against every scalar constant under every comparison,
+// the element on either side, as the element itself and as a member of it: the kinds of the
+// two operands select the code that compares them.
+func TestEnumFilterValues(t *testing.T) {
+	values := []any{nil, true, false, int64(-1), int64(0), int64(1), int64(2), int64(3), int64(1) << 40,
+		-1.5, -0.5, 0.0, 0.5, 1.5, 2.0, 2.5, 1e3, float64(int64(1) << 40), "a", "b", "1", "", "2.5"}
+	consts := make([]*jpx.Eq, 0, len(values))
+	for _, v := range values {
+		switch tv := v.(type) {
+		case nil:
+			consts = append(consts, &jpx.Eq{Op: "const", CK: "nil"})
+		case bool:
+			consts = append(consts, &jpx.Eq{Op: "const", CK: "bool", CB: tv})
+		case int64:
+			consts = append(consts, &jpx.Eq{Op: "const", CK: "int", CI: tv})
+		case float64:
+			consts = append(consts, &jpx.Eq{Op: "const", CK: "float", CF: tv})
+		case string:
+			consts = append(consts, &jpx.Eq{Op: "const", CK: "string", CS: tv})
+		}
+	}
+	members := make([]any, len(values))
+	for i, v := range values {
+		members[i] = map[string]any{"a": v}
+	}
+	plain, inMember := wx.Enc(values), wx.Enc(members)
+	n := 0
+	for _, op := range []string{"eq", "neq", "lt", "gt", "lte", "gte"} {
+		for _, cst := range consts {
+			for _, member := range []bool{false, true} {
+				for _, elemLeft := range []bool{true, false} {
+					for _, gen := range []bool{false, true} {
+						operand := &jpx.Eq{Op: "get", P: jpx.Path{{K: "at"}}}
+						data := plain
+						if member {
+							operand.P = append(operand.P, jpx.Frag{K: "child", Key: "a"})
+							data = inMember
+						}
+						cc := *cst
+						f := &jpx.Eq{Op: op, L: operand, R: &cc}
+						if !elemLeft {
+							f.L, f.R = f.R, f.L
+						}
+						vrt.Eval(suite, "get", Case{Path: jpx.Path{{K: "root"}, {K: "filter", F: f}}, Data: data, Gen: gen}, Run)
+						n++
+					}
+				}
+			}
+		}
+	}
+	suite.AddExtra("filter_value_matrix_cases", int64(n))
+	suite.Extra("filter_value_matrix_exhaustive_over", fmt.Sprintf("6 comparisons x %d constants x %d element values x {element, member of it} x {element left, right} x {simple, gen}", len(consts), len(values)))
+}
+
 func TestPropRandom(t *testing.T) {
 	vrt.Rapid(t, suite, "get", vrt.Scale(40000, 300000), drawCase, Run)
 }
